@@ -113,10 +113,11 @@ func ExecPaced(c CasePaced) *vkit.Result {
 	h.state[r.sess] = r
 	h.mu.Unlock()
 	defer func() {
-		r.sess.Close()
+		closeNoWait(r.sess)
 		r.peer.Close()
 		r.conn.Conn.Close()
 		waitFor(func() bool { return len(sessionGoroutines()) == 0 }, patience)
+		afterCase(res)
 	}()
 	r.sess.Start()
 
@@ -170,7 +171,7 @@ func ExecPaced(c CasePaced) *vkit.Result {
 			n += sz
 		}
 		if last {
-			r.sess.Close()
+			closeBounded(r.sess, patience)
 		}
 		time.Sleep(share(w.PausePct))
 		if wi > 0 && sent.Sub(lastWrite) < W && time.Since(lastWrite) > W && w.PausePct > 0 {
